@@ -1,5 +1,6 @@
 import LunarVerif.Base.Proto
 import LunarVerif.Spec.C14
+import LunarVerif.Spec.C14Reload
 /-! Driver for C14: `lvdriver_c14 run` (model outputs) / `lvdriver_c14 judge` (Spec on impl outputs).
 
 Ops (one answer line each; strings percent-encoded):
@@ -7,10 +8,14 @@ Ops (one answer line each; strings percent-encoded):
   L2  re e=<expression> s=<subject>                 -> match | nomatch | err:syntax | unsupported
   L3  mode flows|policy                             -> ok
       flow name=<n> url=<url> methods=<a,b|->       -> ok | err | dead                 (FilterTree.AddFlow)
-      policy name=<n> m=<method> url=<url> on=<0|1> -> ok
+      policy name=<n> m=<method> url=<url> (on=<0|1> | r=<0|1,…|-> d=<0|1,…|->) -> ok   (remedies / diagnoses)
       global on=<0|1>                               -> ok
       build                                         -> ma=<0|1> n=<k> eps=<e1;e2;…|-> | err | dead
       req m=<method> url=<url>                      -> sel=<names|-> managed=<0|1|?>   (| no-build)
+  L4  mode reload                                   -> ok        (lifetime: a sequence of policy reloads)
+      reload g=<0|1> eps=<M@url;M@url|->            -> ma=<0|1> n=<k> eps=<e1;e2;…|-> | err   (UpdatePoliciesData)
+      advance ms=<n>                                -> ok        (mock clock; due un-manage jobs fire)
+      managed?                                      -> all=<0|1> n=<k> set=<e1;e2;…|->        (the proxy's map)
 -/
 open LunarVerif LunarVerif.Proto LunarVerif.UrlTree LunarVerif.Regex LunarVerif.C14
 
@@ -19,6 +24,15 @@ def ofChars (cs : List Char) : String := String.ofList cs
 def fmtNames (ns : List String) : String := if ns.isEmpty then "-" else String.intercalate "," ns
 
 def parseMethods (s : String) : List String := if s == "-" then [] else (s.splitOn ",").map pctDec
+
+def parseFlags (s : String) : List Bool := if s == "-" then [] else (s.splitOn ",").map (· == "1")
+
+/-- plugins of a `policy` op: `on=<0|1>` (one diagnosis) or `r=<flags> d=<flags>`. -/
+def parsePlugins (ws : List String) : Option (List Bool × List Bool) :=
+  match kv ws "on", kv ws "r", kv ws "d" with
+  | some on, none, none => some ([], [on == "1"])
+  | none, some r, some d => some (parseFlags r, parseFlags d)
+  | _, _, _ => none
 
 def reAnswer (e s : String) : String :=
   if !inSubset e.toList then "unsupported"
@@ -31,8 +45,23 @@ structure Built where
   pt : Option C13.PTree := none
   supported : Bool := true         -- every registered expression is inside the regex subset
 
+def parseReloadEps (s : String) : Option (List Policy) :=
+  if s == "-" then some [] else
+  (s.splitOn ";").zipIdx.mapM fun (it, i) => match it.splitOn "@" with
+    | [m, u] => some ⟨s!"p{i + 1}", pctDec m, pctDec u, [], [true]⟩
+    | _ => none
+
+def fmtSet (es : List String) : String :=
+  let es := (es.map pctEnc).mergeSort (fun a b => decide (a ≤ b))
+  let es := es.eraseDups
+  s!"n={es.length} set={if es.isEmpty then "-" else String.intercalate ";" es}"
+
+def parseSet (s : String) : List String := if s == "-" then [] else (s.splitOn ";").map pctDec
+
 structure RunSt where
-  mode : Nat := 0                  -- 1 flows, 2 policy
+  rmode : Reload.Mode := Reload.codeMode
+  rl : Reload.St := {}
+  mode : Nat := 0                  -- 1 flows, 2 policy, 3 reload
   flows : List Flow := []
   ft : FTree := {}
   dead : Bool := false
@@ -49,7 +78,7 @@ def allSupported (cfg : Cfg) : Bool := (registered cfg).all inSubset
 
 def runStep (s : RunSt) (line : String) : RunSt × String :=
   match words line with
-  | ["case", id] => ({}, s!"case {id}")
+  | ["case", id] => ({ rmode := s.rmode }, s!"case {id}")
   | "fmt" :: ws =>
     match kv ws "m", kv ws "url" with
     | some m, some u => (s, pctEnc (ofChars (formatEndpoint (pctDec m).toList (pctDec u).toList)))
@@ -60,6 +89,25 @@ def runStep (s : RunSt) (line : String) : RunSt × String :=
     | _, _ => (s, "bad-op")
   | ["mode", "flows"] => ({ s with mode := 1 }, "ok")
   | ["mode", "policy"] => ({ s with mode := 2 }, "ok")
+  | ["mode", "reload"] => ({ s with mode := 3 }, "ok")
+  | "reload" :: ws =>
+    match kv ws "g", (kv ws "eps").bind parseReloadEps with
+    | some g, some pols =>
+      if s.mode != 3 then (s, "bad-op")
+      else match buildPolicies pols with
+        | .error _ => (s, "err")
+        | .ok _ =>
+          let cfg := Cfg.policies pols (g == "1")
+          let req : Reload.Req := ⟨manageAll cfg, (registered cfg).map ofChars⟩
+          ({ s with rl := Reload.reload s.rmode s.rl req }, fmtBuild cfg)
+    | _, _ => (s, "bad-op")
+  | "advance" :: ws =>
+    match kvNat ws "ms" with
+    | some d => if s.mode != 3 then (s, "bad-op") else ({ s with rl := Reload.advance s.rmode s.rl d }, "ok")
+    | none => (s, "bad-op")
+  | ["managed?"] =>
+    if s.mode != 3 then (s, "bad-op")
+    else (s, s!"all={if s.rl.all then 1 else 0} {fmtSet s.rl.managed}")
   | "flow" :: ws =>
     match kv ws "name", kv ws "url", kv ws "methods" with
     | some n, some u, some ms =>
@@ -72,10 +120,10 @@ def runStep (s : RunSt) (line : String) : RunSt × String :=
         | .err => ({ s with dead := true }, "err")
     | _, _, _ => (s, "bad-op")
   | "policy" :: ws =>
-    match kv ws "name", kv ws "m", kv ws "url", kv ws "on" with
-    | some n, some m, some u, some on =>
+    match kv ws "name", kv ws "m", kv ws "url", parsePlugins ws with
+    | some n, some m, some u, some (r, d) =>
       if s.mode != 2 then (s, "bad-op")
-      else ({ s with pols := s.pols ++ [⟨n, pctDec m, pctDec u, on == "1"⟩] }, "ok")
+      else ({ s with pols := s.pols ++ [⟨n, pctDec m, pctDec u, r, d⟩] }, "ok")
     | _, _, _, _ => (s, "bad-op")
   | "global" :: ws =>
     match kv ws "on" with
@@ -116,6 +164,8 @@ def runStep (s : RunSt) (line : String) : RunSt × String :=
 /-! ### judge: the Spec on the implementation's answers -/
 
 structure JudgeSt where
+  rmode : Reload.Mode := Reload.codeMode
+  hist : Reload.Hist := {}
   decls : List Decl := []
   worst : Option String := none     -- first violation
   known : Option String := none     -- first known-finding verdict
@@ -131,9 +181,38 @@ def judgeStep (s : JudgeSt) (op out : String) : JudgeSt :=
       if out == "ok" then { s with decls := s.decls ++ [⟨n, pctDec u, parseMethods ms, true⟩] } else s
     | _, _, _ => { s with bad := some "unparsable-flow" }
   | "policy" :: ws =>
-    match kv ws "name", kv ws "m", kv ws "url", kv ws "on" with
-    | some n, some m, some u, some on => { s with decls := s.decls ++ [⟨n, pctDec u, [pctDec m], on == "1"⟩] }
+    match kv ws "name", kv ws "m", kv ws "url", parsePlugins ws with
+    | some n, some m, some u, some (r, d) =>
+      { s with decls := s.decls ++ [⟨n, pctDec u, [pctDec m], r.any id || d.any id⟩] }
     | _, _, _, _ => { s with bad := some "unparsable-policy" }
+  | "reload" :: ws =>
+    let ows := words out
+    match kv ows "ma", kv ows "eps" with
+    | some ma, some eps =>
+      let _ := ws
+      { s with hist := { s.hist with reqs := (s.hist.now, ⟨ma == "1", parseSet eps⟩) :: s.hist.reqs } }
+    | _, _ => s                                  -- a rejected configuration changes nothing
+  | "advance" :: ws =>
+    match kvNat ws "ms" with
+    | some d => if out == "ok" then { s with hist := { s.hist with now := s.hist.now + d } }
+                else { s with bad := some ("advance:" ++ pctEnc out) }
+    | none => s
+  | ["managed?"] =>
+    let ows := words out
+    match kv ows "all", kv ows "set" with
+    | some all, some set =>
+      match Reload.observe s.rmode s.hist (all == "1") (parseSet set) with
+      | .ok => s
+      | .known id =>
+        if s.known.isSome then s
+        else
+          let miss := match s.hist.reqs with
+            | (_, r) :: _ => Reload.missing r (all == "1") (parseSet set)
+            | [] => []
+          { s with known := some s!"{id} required-not-managed-after-reload-settled t={s.hist.now} missing={String.intercalate ";" (miss.map pctEnc)}" }
+      | .violated why =>
+        if s.worst.isSome then s else { s with worst := some s!"- {why} t={s.hist.now}" }
+    | _, _ => { s with bad := some ("unparsable-output:" ++ pctEnc out) }
   | "req" :: ws =>
     let ows := words out
     match kv ws "m", kv ws "url", kv ows "sel", kv ows "managed" with
@@ -159,8 +238,18 @@ def judgeFinish (s : JudgeSt) : String :=
   | none, none, some k => s!"fail {k}"
   | none, none, none => "ok"
 
-def main (args : List String) : IO Unit :=
+/-- `VERIF_C14_RELOAD_MODE=byString|stamped` makes the driver describe the code AFTER F14g.patch / F14g+F14h.patch
+    (used to validate the staged repairs; unset = `Reload.codeMode`, the code as it is). -/
+def reloadMode : IO Reload.Mode := do
+  match (← IO.getEnv "VERIF_C14_RELOAD_MODE") with
+  | some "ptr" => pure .ptr
+  | some "byString" => pure .byString
+  | some "stamped" => pure .stamped
+  | _ => pure Reload.codeMode
+
+def main (args : List String) : IO Unit := do
+  let m ← reloadMode
   match args with
-  | ["run"] => runLoop runStep {}
-  | ["judge"] => judgeLoop ({} : JudgeSt) judgeStep judgeFinish
+  | ["run"] => runLoop runStep { rmode := m }
+  | ["judge"] => judgeLoop ({ rmode := m } : JudgeSt) judgeStep judgeFinish
   | _ => IO.eprintln "usage: lvdriver_c14 run|judge"
